@@ -383,6 +383,9 @@ __CPROVER_assigns()
 __CPROVER_ensures(__CPROVER_return_value == 0 || __CPROVER_return_value == (uint64_t)-1)
 #endif
 { uint64_t m = cxx_strlen(lit); if (m > n) return (uint64_t)-1; for (uint64_t __k = 0; __k < m; ++__k) if (p[__k] != lit[__k]) return (uint64_t)-1; return 0; }
+/* s.find_first_of(set, from): first position >= from whose character occurs in the NUL-terminated set, npos if none */
+static inline uint64_t cxx_find_first_of_cstr(const char *p, uint64_t n, const char *set, uint64_t from)
+{ uint64_t m = cxx_strlen(set); for (uint64_t __k = from; __k < n; ++__k) for (uint64_t __j = 0; __j < m; ++__j) if (p[__k] == set[__j]) return __k; return (uint64_t)-1; }
 static inline uint64_t cxx_find_char(const char *p, uint64_t n, char c, uint64_t from)
 { for (uint64_t __k = from; __k < n; ++__k) if (p[__k] == c) return __k; return (uint64_t)-1; }
 
